@@ -583,14 +583,13 @@ Section Families.
      record of the target with a positive key; exactly one when the family is
      wanted and has a positive key *)
   Theorem additional_max_one : forall want4 want6 (rows : list row) r6 r4 wt,
-    NoDup (map rpay rows) ->
     additional klt kpos want4 want6 rows = (r6, r4, wt) ->
     length r4 = (if want4 then Nat.min 1 (length (filter (fun r : row => (rq r =? TypeA) && kpos (rkey r)) rows)) else 0%nat)
     /\ length r6 = (if want6 then Nat.min 1 (length (filter (fun r : row => (rq r =? TypeAAAA) && kpos (rkey r)) rows)) else 0%nat)
     /\ (forall a, In a r4 -> exists r, In r rows /\ rq r = TypeA /\ rpay r = a /\ kpos (rkey r) = true)
     /\ (forall a, In a r6 -> exists r, In r rows /\ rq r = TypeAAAA /\ rpay r = a /\ kpos (rkey r) = true).
   Proof.
-    intros want4 want6 rows r6 r4 wt Hnd Hadd. unfold additional in Hadd.
+    intros want4 want6 rows r6 r4 wt Hadd. unfold additional in Hadd.
     destruct (want4 || want6) eqn:Ew.
     2:{ inversion Hadd; subst. destruct want4, want6; try discriminate. simpl. repeat split; auto; intros ? []. }
     rewrite add_parse_fold in Hadd.
@@ -617,6 +616,61 @@ Section Families.
     - destruct want6; [rewrite map_length; apply Hcnt|auto].
     - intros a Ha. destruct want4; [apply Hsnd; auto|destruct Ha].
     - intros a Ha. destruct want6; [apply Hsnd; auto|destruct Ha].
+  Qed.
+
+  (* ---------------------------------------------------------------- *)
+  (* the whole additional section: want4/want6 from HasRecord *)
+
+  Definition cnt (msg : list (N * N)) (name q : N) : nat :=
+    length (filter (fun p => (fst p =? name) && (snd p =? q)) msg).
+
+  Lemma has_record_false : forall msg name q, has_record msg name q = false -> cnt msg name q = 0%nat.
+  Proof.
+    unfold has_record, cnt. induction msg as [|p msg IH]; intros name q H; auto.
+    simpl in *. apply orb_false_elim in H. destruct H as [H1 H2]. rewrite H1. auto.
+  Qed.
+
+  Lemma cnt_app : forall a b name q, cnt (a ++ b) name q = (cnt a name q + cnt b name q)%nat.
+  Proof. intros. unfold cnt. rewrite filter_app, app_length. auto. Qed.
+
+  Lemma cnt_map_const : forall (l : list A) (n t name q : N),
+    cnt (map fst (map (fun a => (n, t, a)) l)) name q = if (n =? name) && (t =? q) then length l else 0%nat.
+  Proof.
+    intros l n t name q. unfold cnt. induction l as [|a l IH]; simpl.
+    - destruct ((n =? name) && (t =? q)); auto.
+    - destruct ((n =? name) && (t =? q)); simpl; auto.
+  Qed.
+
+  Theorem additional_section_one_per_family : forall (targets : list (N * list row)) msg es wt m,
+    additional_section klt kpos msg targets = (es, wt, m) ->
+    m = msg ++ map fst es
+    /\ forall name q, q = TypeA \/ q = TypeAAAA ->
+         (cnt m name q <= Nat.max 1 (cnt msg name q))%nat.
+  Proof.
+    induction targets as [|[tn rows] t IH]; intros msg es wt m H.
+    - simpl in H. inversion H; subst. rewrite app_nil_r. split; auto. intros. lia.
+    - cbn [additional_section] in H.
+      destruct (additional klt kpos (negb (has_record msg tn TypeA)) (negb (has_record msg tn TypeAAAA)) rows)
+        as [[r6 r4] wt0] eqn:Eadd.
+      set (e := map (fun a => (tn, TypeAAAA, a)) r6 ++ map (fun a => (tn, TypeA, a)) r4) in *.
+      destruct (additional_section klt kpos (msg ++ map fst e) t) as [[es' wt'] m'] eqn:Erec.
+      inversion H; subst es wt m. clear H.
+      destruct (IH _ _ _ _ Erec) as [Hm Hb]. split.
+      + rewrite Hm, map_app, app_assoc. auto.
+      + intros name q Hq. specialize (Hb name q Hq).
+        destruct (additional_max_one _ _ _ _ _ _ Eadd) as (L4 & L6 & _).
+        assert (Hstep : (cnt (msg ++ map fst e) name q <= Nat.max 1 (cnt msg name q))%nat).
+        { rewrite cnt_app. unfold e. rewrite map_app, cnt_app, !cnt_map_const.
+          destruct (tn =? name) eqn:En; cbn [andb]; [|lia].
+          apply N.eqb_eq in En. subst tn.
+          destruct Hq; subst q; unfold TypeA, TypeAAAA in *; simpl N.eqb.
+          - destruct (has_record msg name 1) eqn:Eh; cbn [negb] in L4.
+            + rewrite L4. lia.
+            + apply has_record_false in Eh. rewrite Eh, L4. lia.
+          - destruct (has_record msg name 28) eqn:Eh; cbn [negb] in L6.
+            + rewrite L6. lia.
+            + apply has_record_false in Eh. rewrite Eh, L6. lia. }
+        lia.
   Qed.
 End Families.
 
